@@ -1129,6 +1129,8 @@ static void run_consts(out &o)
 
 // ---------------------------------------------------------------- round 3: print_f called directly (pfd)
 // pfd <bits> <width> <precision> <ops-hex> <with_exp> <is_shortened>: widths, precisions and flag words beyond
+// (round 3b: <ops-hex> is in the encoding of the OP LINE - 1 `-`, 2 `+`, 4 space, 8 `#`, 10 `0`, 20 precision given,
+// 4000 upper case, 2000 `L` - and is translated by c13_print_f to whatever bit values the library uses)
 // what a format string of the generator spells (precision up to 400 000: a 400 KB text; every flag on inf/nan)
 static void run_pfd(const std::vector<std::string> &w, out &o)
 {
